@@ -476,46 +476,43 @@ where
         // weight_left: the weight of all those points
         // nearest_idx: the index in `items` of the point that is 1/ on the
         //    right side of split_target and 2/ the nearest to split_target
-        let (_count_left, weight_left, nearest_idx, nearest_distance) = items.points[coord]
+        // nearest_coord: its coordinate. Coordinates are compared, not their
+        //    rounded distances to split_target, which can be equal for
+        //    different points.
+        let (_count_left, weight_left, nearest_idx, nearest_coord) = items.points[coord]
             .par_iter()
             .with_min_len(4096)
             .zip(&*items.weights)
             .enumerate()
             .fold(
                 || (0, W::default(), None, f32::INFINITY),
-                |(count, weight_left, mut nearest_idx, mut nearest_distance),
+                |(count, weight_left, mut nearest_idx, mut nearest_coord),
                  (idx, (point, weight))| {
-                    let distance = point - split_target;
-                    if distance < 0.0 {
-                        (
-                            count + 1,
-                            weight_left + *weight,
-                            nearest_idx,
-                            nearest_distance,
-                        )
+                    if *point < split_target {
+                        (count + 1, weight_left + *weight, nearest_idx, nearest_coord)
                     } else {
-                        if distance < nearest_distance {
-                            nearest_distance = distance;
+                        if *point < nearest_coord {
+                            nearest_coord = *point;
                             nearest_idx = Some(idx);
                         }
-                        (count, weight_left, nearest_idx, nearest_distance)
+                        (count, weight_left, nearest_idx, nearest_coord)
                     }
                 },
             )
             .reduce(
                 || (0, W::default(), None, f32::INFINITY),
-                |(count0, weight0, nearest_idx0, nearest_distance0),
-                 (count1, weight1, nearest_idx1, nearest_distance1)| {
-                    let (nearest_idx, nearest_distance) = if nearest_distance0 < nearest_distance1 {
-                        (nearest_idx0, nearest_distance0)
+                |(count0, weight0, nearest_idx0, nearest_coord0),
+                 (count1, weight1, nearest_idx1, nearest_coord1)| {
+                    let (nearest_idx, nearest_coord) = if nearest_coord0 < nearest_coord1 {
+                        (nearest_idx0, nearest_coord0)
                     } else {
-                        (nearest_idx1, nearest_distance1)
+                        (nearest_idx1, nearest_coord1)
                     };
                     (
                         count0 + count1,
                         weight0 + weight1,
                         nearest_idx,
-                        nearest_distance,
+                        nearest_coord,
                     )
                 },
             );
@@ -552,7 +549,7 @@ where
         let weight_right = sum - weight_left;
         if exhausted
             // there is no point between split_target and max, where the cut should move to
-            || (weight_left < weight_right && max <= split_target + nearest_distance)
+            || (weight_left < weight_right && max <= nearest_coord)
             || imbalance <= tolerance
         {
             let (left, right) = reorder_split(items, nearest_idx, coord);
